@@ -370,7 +370,9 @@ Ltac facts HE HL HP HI HM HG HIf HB HBL HS HEL HELL HML :=
       assert (N2 : endt <> token_EOF) by (first [assumption|tokneq]);
       destruct (HELL _ _ _ _ _ E N1 N2) as [? ?]; clear E; try clear N1 N2
   | E : parseMapLoop conv _ _ _ _ = ROk _ _ |- _ => apply HML in E; destruct E as [? ?]
-  | E : parseIdentifier _ = ROk _ _ |- _ => pose proof (le_ident _ _ _ E); apply sim_ident in E
+  | E : parseIdentifier ?s0 = ROk _ _ |- _ =>
+      lazymatch s0 with fs _ => fail | _ => idtac end;
+      pose proof (le_ident _ _ _ E); apply sim_ident in E
   | E : parseIntegerLiteral conv _ = ROk _ _ |- _ =>
       pose proof (le_int conv _ _ _ E); pose proof (sim_int conv _ _ _ E); clear E
   | E : parseFloatLiteral conv _ = ROk _ _ |- _ =>
@@ -525,6 +527,7 @@ Proof.
   - dec; finish.
 Qed.
 
+
 Lemma SP_step f : SAll f -> SP (S f).
 Proof.
   unfold SP. intros IH; use_all IH; intros fn s x s1 H.
@@ -535,4 +538,67 @@ Proof.
   end.
   discriminate H.
 Qed.
+
+Lemma sim_all : forall f, SAll f.
+Proof.
+  induction f as [|f IH].
+  - unfold SAll. repeat (match goal with |- _ /\ _ => split end);
+      unfold SE, SL, SP, SI, SM, SG, SIf, SB, SBL, SS, SEL, SELL, SML; intros; discriminate.
+  - unfold SAll. repeat (match goal with |- _ /\ _ => split end).
+    + apply SE_step, IH. + apply SL_step, IH. + apply SP_step, IH. + apply SI_step, IH.
+    + apply SM_step, IH. + apply SG_step, IH. + apply SIf_step, IH. + apply SB_step, IH.
+    + apply SBL_step, IH. + apply SS_step, IH. + apply SEL_step, IH. + apply SELL_step, IH.
+    + apply SML_step, IH.
+Qed.
 End Main.
+
+(* ---------- whole programs ---------- *)
+Local Transparent dirty fs ft fp nextToken set_cont add_err curIs peekIs.
+Section Program.
+Variable conv : numconv.
+
+Lemma sim_programLoop f : forall acc s l s1,
+  programLoop conv f acc s = ROk l s1 ->
+  le s s1 /\ (dirty s1 = false -> programLoop conv f (fl acc) (fs s) = ROk (fl l) (fs s1)).
+Proof.
+  induction f as [|f IH]; intros acc s l s1 H; [discriminate|].
+  cbn [programLoop] in *. rewrite (curIs_fs_eof s), (curIs_fs_eol s), orb_false_r.
+  destruct (sim_all conv f) as (_ & _ & _ & _ & _ & _ & _ & _ & _ & HS & _).
+  destruct (curIs s token_EOF), (curIs s token_EOL); cbn [orb] in *;
+    try (injection H as <- <-; split; [apply le_refl|reflexivity]).
+  destruct (parseStatement conv f s) as [st s2| |] eqn:E; try discriminate.
+  destruct (HS _ _ _ E) as [L1 S1].
+  destruct st as [n|].
+  - destruct (IH _ _ _ _ H) as [L2 S2]. apply le_next_l in L2.
+    split; [eapply le_trans; eassumption|]. intros Hc.
+    rewrite (S1 (dirty_false_le _ _ L2 Hc)). cbn [option_map].
+    rewrite fs_next. specialize (S2 Hc). rewrite map_app in S2. exact S2.
+  - injection H as <- <-. split; [exact L1|]. intros Hc. rewrite (S1 Hc). reflexivity.
+Qed.
+
+Lemma fs_init toks :
+  fs (init_state (mkPtok (mkTok token_EOL []) false false) toks)
+  = init_state (mkPtok (mkTok token_EOF []) false false) (map fp toks).
+Proof. unfold init_state. rewrite <- !fs_next. reflexivity. Qed.
+
+(* A clean line-mode parse of a token list is reproduced by the file-mode parse of the same list with
+   the end-of-line marker renamed: same tree (up to that renaming), no error, no continuation. *)
+Theorem linemode_parse_sim fuel toks r :
+  parse_program conv fuel token_EOL toks = POk r -> clean_result r = true ->
+  parse_program conv fuel token_EOF (map fp toks)
+  = POk (mkPres (fl (pr_tree r)) [] false (pr_all_lexed r)).
+Proof.
+  unfold parse_program. intros H Hc.
+  destruct (programLoop conv fuel [] _) as [l s1| |] eqn:E; try discriminate.
+  injection H as <-. unfold clean_result in Hc. cbn [pr_errs pr_cont pr_tree pr_all_lexed] in *.
+  assert (He : ps_errs s1 = []).
+  { destruct (ps_errs s1) as [|e es]; [reflexivity|]. cbn [rev] in Hc.
+    destruct (rev es ++ [e]) eqn:X; [apply app_eq_nil in X as [_ X]; discriminate X|discriminate Hc]. }
+  rewrite He in Hc. cbn [rev] in Hc. apply negb_true_iff in Hc.
+  assert (Hd : dirty s1 = false) by (unfold dirty; now rewrite He).
+  destruct (sim_programLoop _ _ _ _ _ E) as [_ S]. specialize (S Hd). cbn [map] in S.
+  rewrite <- fs_init. rewrite S. f_equal.
+  transitivity (mkPres (fl l) (rev (ps_errs s1)) (ps_cont s1) (match map fp (ps_rest s1) with [] => true | _ => false end));
+    [reflexivity|]. rewrite He, Hc. cbn [rev]. destruct (ps_rest s1); reflexivity.
+Qed.
+End Program.
